@@ -70,17 +70,29 @@ def run_flow(prop, cases, budgets, kinds, tier, seed, depth=4, rule="", assumpti
             c["vm"] = vm.tables(c["_script"], dict(bashdrv.PROBE_CLASSES, **(extra_probes or {})))
         res_x, pred = vm.explore([c for c in ok if c.get("vm")], depth=2 if tier == "quick" else 3)
         npred = sum(len(x) for x in pred.values())
-        per = max(4, vm_budget // max(1, len(pred)))
+        # replay budget: situations the known findings do not explain first (a matched word, the cursor word alone, a plainly
+        # foreign word), then the others; spread over grammars
+        PRIORITY = {"matched": 0, "cursor_only": 0, "fail_other": 0, "matched_at_command_point": 1, "value_with_longer_sibling": 2,
+                    "fail_word_incomplete": 3, "fail_at_command_point": 3}
         added = 0
+        tags = {}
+        pool = []
         for cid, lines in pred.items():
             have = {(tuple(q["words"]), q["prefix"]) for q in qb.get(cid, [])}
-            lines = sorted(set((tuple(w), x) for w, x in lines) - have, key=lambda t: (len(t[0]), t))
-            rnd.shuffle(lines)
-            for w, x in lines[:per]:
-                qb.setdefault(cid, []).append({"words": list(w), "prefix": x, "wb": "d", "_predicted": True})
-                added += 1
+            uniq = {}
+            for w, x, tag in lines:
+                if (tuple(w), x) not in have:
+                    uniq[(tuple(w), x)] = tag
+            items = sorted(uniq.items(), key=lambda kv: (PRIORITY.get(kv[1], 1), len(kv[0][0]), kv[0]))
+            for rank, ((w, x), tag) in enumerate(items):
+                pool.append((PRIORITY.get(tag, 1), rank, rnd.random(), cid, w, x, tag))
+                tags[tag] = tags.get(tag, 0) + 1
+        pool.sort()
+        for pr, rank, _, cid, w, x, tag in pool[:vm_budget]:
+            qb.setdefault(cid, []).append({"words": list(w), "prefix": x, "wb": "d", "_predicted": True})
+            added += 1
         vmstats = {"design_level_states": res_x.distinct if res_x else 0, "design_level_transitions": res_x.generated if res_x else 0,
-                   "predictions": npred, "predictions_replayed_in_bash": added, "grammars_with_predictions": len(pred)}
+                   "predictions": npred, "predictions_by_situation": tags, "predictions_replayed_in_bash": added, "grammars_with_predictions": len(pred)}
     records = bashflow.execute(ok, qb, extra_probes=extra_probes)
     if vm_budget:
         vmof = {c["id"]: c.get("vm") for c in ok}
